@@ -48,6 +48,9 @@ func newPipelineConn(c net.Conn, t *PipelineTransport) *pipelineConn {
 		cancelCause: cancel,
 		queue:       make(map[uint32]chan *dnsmsg.Msg),
 	}
+	if verifhook.On {
+		verifhook.Gate("pc.new", t, pc)
+	}
 	pc.startLoops()
 	debugLogTransportConnOpen(c, t.logger)
 	return pc
@@ -60,6 +63,9 @@ func (c *pipelineConn) startLoops() {
 // exchange writes payload to connection waits for its reply.
 func (c *pipelineConn) exchange(ctx context.Context, m []byte) (*dnsmsg.Msg, error) {
 	respChan := make(chan *dnsmsg.Msg, 1)
+	if verifhook.On {
+		verifhook.Gate("pc.g.add", c.t, ctx, c)
+	}
 	qid, err := c.addQueueC(respChan)
 	if err != nil {
 		return nil, err // TODO: pool may return connection that is eof
@@ -71,12 +77,24 @@ func (c *pipelineConn) exchange(ctx context.Context, m []byte) (*dnsmsg.Msg, err
 		return nil, err
 	}
 
+	if verifhook.On {
+		verifhook.Gate("pc.g.sel", c.t, ctx, c)
+	}
 	select {
 	case <-ctx.Done():
+		if verifhook.On {
+			verifhook.Ev("pc.ret", c, ctx, "ctx")
+		}
 		return nil, context.Cause(ctx)
 	case <-c.ctx.Done():
+		if verifhook.On {
+			verifhook.Ev("pc.ret", c, ctx, "conn")
+		}
 		return nil, context.Cause(c.ctx)
 	case r := <-respChan:
+		if verifhook.On {
+			verifhook.Ev("pc.ret", c, ctx, "reply")
+		}
 		r.Header.ID = binary.BigEndian.Uint16(m)
 		return r, nil
 	}
@@ -128,6 +146,9 @@ func (c *pipelineConn) readLoop() {
 
 		verifRid := int(r.Header.ID)
 		resChan := c.getQueueC(r.Header.ID)
+		if verifhook.On {
+			verifhook.Gate("pc.g.send", c.t, c, verifRid)
+		}
 		if resChan != nil {
 			select {
 			case resChan <- r: // resChan has buffer
@@ -278,6 +299,9 @@ func (c *pipelineConn) addQueueC(respChan chan *dnsmsg.Msg) (uint16, error) {
 }
 
 func (c *pipelineConn) deleteQueueC(qid uint16) {
+	if verifhook.On {
+		verifhook.Gate("pc.g.del", c.t, c, int(qid))
+	}
 	c.m.Lock()
 	delete(c.queue, uint32(qid))
 	eol := c.nextQid > 65535 && len(c.queue) == 0
